@@ -182,15 +182,17 @@ theorem execTagged_sound_trace (e : Env) (init : Memory) (ops : List DecOp) (inf
       StepOk e (memAt init (ops.zip infos) k) (ops.zip infos)[k].1 (ops.zip infos)[k].2 :=
   (RunOk_iff_forall e init (ops.zip infos)).mp ((execTagged_nil_iff e h ops infos).mp hexec)
 
-/-- element-level reading of a satisfied feature-map read (uses `Footprint.fmPieces_covers`): every byte of
-    every addressed element holds tensor `tid` at the element's canonical offset.  For NHCWB16 the box
-    origin must be brick aligned in depth. -/
+/-- element-level reading of a satisfied feature-map read (uses `Footprint.fmPiecesS_covers`): every byte of
+    every addressed element holds tensor `tid` at the element's canonical offset, displaced by the base
+    offset of the tile the element lies in (`tileOf` is the tile selection of `fmAddr`).  For NHCWB16 the
+    box origin must be brick aligned in depth. -/
 theorem fmHolds_elements (m : Memory) (fm : FM) (fi : FmInfo) (h : FmHolds m fm fi)
     (hal : fm.nhcwb16 = true → fi.c0 % 16 = 0) (y x c k : Nat)
     (hy : y < fm.height) (hx : x < fm.width) (hc : c < fm.depth) (hk : k < fm.elemBytes) :
     m.get fm.region (fmAddr fm y x c + k) =
-      some (fi.tid, (canon fm (y + fi.y0) (x + fi.x0) (c + fi.c0) : Int) - (fmAddr fm y x c : Int) + fi.shift) := by
-  obtain ⟨p, hp, hcov, hd⟩ := fmPieces_covers fm fi.y0 fi.x0 fi.c0 y x c k hy hx hc hk
+      some (fi.tid, (canon fm (y + fi.y0) (x + fi.x0) (c + fi.c0) : Int) - (fmAddr fm y x c : Int) +
+        tileShift fi.shifts (tileOf fm y x)) := by
+  obtain ⟨p, hp, hcov, hd⟩ := fmPiecesS_covers fm fi.y0 fi.x0 fi.c0 fi.shifts y x c k hy hx hc hk
   rw [h p hp _ hcov, hd hal]
 
 /-! ### non-vacuity: a two-operation program that runs clean, and one that does not -/
@@ -201,18 +203,37 @@ def exFm : FM :=
     strideC := 0, height := 2, width := 4, depth := 8, elemBytes := 1, signed := true, nhcwb16 := false, zeroPoint := 0 }
 def exBlock : BlockOp := { (default : BlockOp) with ifm := exFm, ofm := { exFm with region := 2 } }
 def exInfo : OpInfo :=
-  { ifm := ⟨7, 0, 0, 0, 0⟩, ifm2 := default, ofm := ⟨8, 0, 0, 0, 0⟩, wsrc := [], ssrc := [], lutsrc := -1, lutLen := 0 }
+  { ifm := ⟨7, 0, 0, 0, [0, 0, 0, 0]⟩, ifm2 := default, ofm := ⟨8, 0, 0, 0, [0, 0, 0, 0]⟩, wsrc := [], ssrc := [], lutsrc := -1, lutLen := 0 }
 
 /-- block op reads tensor 7 from region 1 and writes tensor 8 to region 2; the DMA then reads tensor 8 -/
 example : execTagged exEnv exInit [.block exBlock, .dma ⟨⟨2, 0, 64⟩, ⟨1, 200, 64⟩, 0⟩]
     [.block exInfo, .dma ⟨8, 0, 8, -200⟩] = [] := by decide
 /-- the same block op expecting the rows one further down (a wrapped rolling buffer) is rejected -/
-example : (execTagged exEnv exInit [.block exBlock] [.block { exInfo with ifm := ⟨7, 1, 0, 0, 0⟩ }]).length = 1 := by
+example : (execTagged exEnv exInit [.block exBlock] [.block { exInfo with ifm := ⟨7, 1, 0, 0, [0, 0, 0, 0]⟩ }]).length = 1 := by
   decide
 /-- the DMA executed *before* its producer is rejected -/
 example : (execTagged exEnv exInit [.dma ⟨⟨2, 0, 64⟩, ⟨1, 200, 64⟩, 0⟩, .block exBlock]
     [.dma ⟨8, 0, 8, -200⟩, .block exInfo]).length = 1 := by decide
 example : (stepBlock exEnv exInit 0 exBlock exInfo).1 = [] ∧ exBlock.ifm.region ≠ exEnv.constRegion := by decide
 example : (stepDma exEnv exInit 0 ⟨⟨1, 16, 32⟩, ⟨2, 0, 32⟩, 0⟩ ⟨7, 0, 9, 0⟩).1 = [] := by decide
+
+/-! ### per-tile base offsets (the RESIZE_BILINEAR edge-replication pattern)
+
+A 2×3 int8 map read through two tiles side by side (`width0 = 2`): tile 0 starts at byte 16, tile 1 is
+the *same* column re-read (its base is displaced by −8 relative to where column 2 would be), i.e. the
+operation replicates the last column. With the per-tile shifts `[0, −8, 0, 0]` the read is accepted; a
+single shift for all tiles (the former checker) rejects it. -/
+def exTileFm : FM :=
+  { region := 1, base := [16, 24, 0, 0], height0 := 2, height1 := 2, width0 := 2, strideX := 8, strideY := 16,
+    strideC := 0, height := 2, width := 3, depth := 8, elemBytes := 1, signed := true, nhcwb16 := false, zeroPoint := 0 }
+def exTileBlock : BlockOp := { (default : BlockOp) with ifm := exTileFm, ofm := { exFm with region := 2 } }
+
+example : fmPiecesS exTileFm 0 0 0 [0, -8, 0, 0] = [⟨16, 16, -16⟩, ⟨24, 24, -16⟩, ⟨40, 8, -16⟩] := by decide
+example : execTagged exEnv [(1, IMap.write [] 16 48 7 (-16))] [.block exTileBlock]
+    [.block { exInfo with ifm := ⟨7, 0, 0, 0, [0, -8, 0, 0]⟩ }] = [] := by decide
+example : (execTagged exEnv [(1, IMap.write [] 16 48 7 (-16))] [.block exTileBlock]
+    [.block { exInfo with ifm := ⟨7, 0, 0, 0, [0, 0, 0, 0]⟩ }]).length = 1 := by decide
+example : tileOf exTileFm 1 2 = 1 ∧ tileShift [0, -8, 0, 0] 1 = -8 ∧ fmAddr exTileFm 1 2 3 = 43 ∧
+    (canon exTileFm 1 2 3 : Int) - 43 + (-8) = -16 := by decide
 
 end VelaVerif.Props.C03
